@@ -8,7 +8,8 @@
 (***************************************************************************)
 EXTENDS Netcode, Json
 
-CONSTANTS MaxSteps, Addrs, Dts, CraftToks, MaxPresent, Calls, PropsOn, Export, ExportAll, ExportOneIn
+CONSTANTS MaxSteps, Addrs, Dts, CraftToks, MaxPresent, Calls, PropsOn, Export, ExportAll, ExportOneIn,
+          HealRounds, HealDt, Bound   \* bounded liveness: after the fault phase the network heals and HealRounds good rounds follow
 
 VARIABLES w, obs, ctl, hist
 vars == <<w, obs, ctl, hist>>
@@ -38,10 +39,10 @@ SetupSteps == [i \in 1..Len(TokNames) |->
 
 Init == /\ w = NewWorld
         /\ obs = FoldObs(ObsReset(Cfg), SetupEvents, 1)
-        /\ ctl = [steps |-> 0, tag |-> 1]
+        /\ ctl = [steps |-> 0, tag |-> 1, healed |-> FALSE, rounds |-> 0]
         /\ hist = IF Export THEN SetupSteps ELSE <<>>
 
-Can == ctl.steps < MaxSteps
+Can == ctl.steps < MaxSteps /\ ~ctl.healed
 Apply(r, step) == /\ w' = r.w
                   /\ obs' = ObsStep(obs, r.ev)
                   /\ hist' = IF Export THEN Append(hist, step) ELSE hist
@@ -101,6 +102,25 @@ ACLeave(c) ==
     /\ hist' = IF Export THEN hist \o <<[a |-> "cdisconnect", c |-> c, as |-> NextName], [a |-> "sdeliver", d |-> NextName]>> ELSE hist
     /\ ctl' = [ctl EXCEPT !.steps = @ + 1]
 
+(***************************************************************************)
+(* Bounded liveness (C18_Connects): at any point of the fault phase the    *)
+(* network may heal; from then on only good rounds (DoPump over all        *)
+(* clients) happen, and the observer demands that every client that had    *)
+(* not given up at that point is connected on both sides after Bound       *)
+(* rounds.                                                                 *)
+(***************************************************************************)
+AHeal == /\ HealRounds > 0 /\ ~ctl.healed
+         /\ obs' = ObsStep(obs, [ev |-> "heal", cs |-> CliNames, bound |-> Bound, panic |-> FALSE])
+         /\ hist' = IF Export THEN Append(hist, [a |-> "mark", mark |-> "heal", cs |-> CliNames, bound |-> Bound]) ELSE hist
+         /\ ctl' = [ctl EXCEPT !.healed = TRUE]
+         /\ UNCHANGED w
+APump == /\ ctl.healed /\ ctl.rounds < HealRounds
+         /\ LET r == DoPump(w, CliNames, HealDt) IN
+            /\ w' = r.w
+            /\ obs' = FoldObs(obs, r.evs, 1)
+         /\ hist' = IF Export THEN Append(hist, [a |-> "pump", cs |-> CliNames, dt |-> HealDt, n |-> 1]) ELSE hist
+         /\ ctl' = [ctl EXCEPT !.rounds = @ + 1]
+
 Ids == {Tokens[t].id : t \in DOMAIN Tokens}
 Next == \/ \E c \in DOMAIN Clients : \E dt \in Dts : ACUpdate(c, dt) \/ AExchange(c, dt)
         \/ \E dt \in Dts : ASUpdate(dt)
@@ -110,10 +130,11 @@ Next == \/ \E c \in DOMAIN Clients : \E dt \in Dts : ACUpdate(c, dt) \/ AExchang
         \/ \E c \in DOMAIN Clients : ACPayload(c) \/ ACDisconnect(c) \/ ACLeave(c)
         \/ \E id \in Ids : ASPayload(id) \/ ASDisconnect(id)
         \/ \E n \in 1..3 : ASetMax(n)
+        \/ AHeal \/ APump
 
 Spec == Init /\ [][Next]_vars
 NoFlag == obs.flags = {}
-Done == ctl.steps = MaxSteps
+Done == IF HealRounds = 0 THEN ctl.steps = MaxSteps ELSE ctl.healed /\ ctl.rounds = HealRounds
 \* large state spaces export a random sample of their finished behaviours (one in ExportOneIn)
 ExportInv == (Export /\ (ExportAll \/ Done) /\ RandomElement(1..ExportOneIn) = 1) => PrintT(<<"PATH", ToJson([done |-> Done, steps |-> hist])>>)
 ExportCfg == PrintT(<<"CFG", ToJson(Cfg)>>)
